@@ -384,6 +384,36 @@ func runC17(w *World, r *Report, tier string) {
 			return s == "le(param:"+n.Name()+",0)=false"
 		})
 		r.Check(len(pos) > 0 && !reachable(entryLoc(fn), nonNilRet, nil, pos), "R5", "stanza.(*UnAckQueue).PeekN#non-positive", w.pos(fn.Pos()), "PeekN can return elements for n <= 0", "non-nil result only when n > 0")
+		// a nil result only for a nil receiver, n <= 0 or an empty queue
+		{
+			badNil, nNilRet := "", 0
+			walkPaths(entryLoc(fn), nil, nil, 2000, func(path []ssa.Instruction, end pathEnd) {
+				rt, isRet := path[len(path)-1].(*ssa.Return)
+				// only explicit `return nil` statements: an accumulator that is still nil after a copy loop over nothing is
+				// governed by the clamp and copy-loop rules
+				if !isRet || end == endCycle || !isNilConst(rt.Results[0]) {
+					return
+				}
+				nNilRet++
+				saved := nfPath
+				nfPath = path
+				okWhy := pathAsserts(path, func(c ssa.Value, truth bool) bool {
+					if x, eq, isN := nilCompare(c); isN && isRecv(fn, x) && eq == truth {
+						return true
+					}
+					switch w.condNF(c, truth) {
+					case "le(param:" + n.Name() + ",0)=true", fmt.Sprintf("eq(0,builtin.len(%s))=true", U(fn)), fmt.Sprintf("le(builtin.len(%s),0)=true", U(fn)):
+						return true
+					}
+					return false
+				})
+				nfPath = saved
+				if !okWhy {
+					badNil = "PeekN returns nothing at " + w.ipos(rt) + " although the receiver is not nil, n > 0 and the queue is not known to be empty"
+				}
+			})
+			r.Check(badNil == "" && nNilRet > 0, "R5", "stanza.(*UnAckQueue).PeekN#nil-only-when-nothing-to-return", w.pos(fn.Pos()), badNil, fmt.Sprintf("%d nil return(s), each for a nil receiver, n <= 0 or an empty queue", nNilRet))
+		}
 		// copy loop: either `for i := 0; i < bound; i++ { r = append(r, Uslice[i]) }` or `for _, e := range Uslice[:bound] { r = append(r, e) }`
 		var bound ssa.Value
 		okLoop, detail := false, "no copy loop of a recognised shape (ascending from 0, r = append(r, Uslice[i]))"
